@@ -59,7 +59,7 @@ CHECKS = {
    text="Values generated by reflection for every XDR type are encoded by both codecs and must give identical bytes and round-trip; arbitrary/truncated bytes must be accepted/rejected alike; each procedure number must reach its handler. End to end: all procedures through the registration done by cmd/go-nfsd's own main (real binary, TCP, MOUNT + NFS programs), replies compared with the reference, also with -stats and SIGUSR1.",
    note="rfc1813 of go-rpcgen is generated from the RFC's .x file by the same generator; hand-derived vectors guard the shared part", ref="§4 C16"),
  "C17": dict(cat="fault_enumeration", engine="simple", tech="reference-model differential + porcupine per inode + crash-image enumeration on the simple server",
-   text="Sequential differential against the 30x4096-byte model (stretches with the journal's installer held back), concurrent histories partitioned by inode, crash cuts of the disk trace with simple.Recover, and observation-crash runs (a read answered while a modification is in flight must not show what a crash at that instant loses).",
+   text="Sequential differential against the 30x4096-byte model (stretches with the journal's installer held back), concurrent histories partitioned by inode, crash cuts of the disk trace with simple.Recover, and observation-crash runs (a read answered while a modification is in flight must not show what a crash at that instant loses). End to end: the real cmd/simple-nfsd binary over TCP, killed (SIGKILL) right after replies and restarted on its disk file; all 30 files must read back as the specification has them.",
    note="same disk model as C01", ref="§4 C17"),
  "C18": dict(cat="fault_enumeration", engine="kvs", tech="unique-id model + porcupine + crash-image enumeration on the KVS",
    text="Values carry unique ids; overlapping MultiPuts from several clients; linearizability; crash cuts: all-or-nothing per MultiPut and durability of acknowledged ones; stretches with the installer held back (gets served from the memory log); crash cuts next to callers whose oversized puts are refused.",
